@@ -290,7 +290,11 @@ func (e *Exec) appendOp(s *Slice, more Value, call *ssa.CallCommon) Value {
 	}
 	o.Cells = append(o.Cells, src...)
 	o.Cap = newLen
-	e.allocs = append(e.allocs, allocRec{"append", tb.Mul(newLen, e.c64(8))})
+	// amortised accounting: the model reallocates on every append (capacity == length, the
+	// conservative choice for aliasing), Go grows geometrically; charging the whole new
+	// backing store each time would make k appends look quadratic, so only the added
+	// elements are charged (8 bytes each, the widest scalar)
+	e.allocs = append(e.allocs, allocRec{"append", tb.Mul(e.c64(int64(n)), e.c64(8))})
 	return &Slice{Obj: o, Off: e.c64(0), Len: newLen, Cap: newLen, MaxLen: ml}
 }
 
